@@ -240,6 +240,83 @@ pub fn run(ctx: &Ctx) -> i32 {
     }
     col.layer("buffer-boundary", nb, true, json!({"buffer": 8192, "multiples": [1, 2], "offsets": "-5..=2", "patterns": ["CRLF", "aCRLFbCRLF", "é LF", "😀 LF", "LF LF", "a (unterminated)", "a CR (unterminated)", "ab LF"]}));
     col.sample(json!({"layer": "buffer-boundary", "content": "1023 filler lines of 8 bytes, then CR LF starting at byte 8191, then z LF"}));
+    // the command line program: several input files in command-line order, `FROM t::'file'`, a definition file with two tables
+    {
+        let dir = sut::tmp_dir();
+        let defp = format!("{}/c12_def_{}.txt", dir, std::process::id());
+        std::fs::write(&defp, "CREATE TABLE other('(zzz)' => z TEXT);\nCREATE TABLE t(line = '(?s)^(.*)$', line[1] => x TEXT);").unwrap();
+        let contents: [&[u8]; 5] = [b"a\nb\n", b"c", b"", b"d\r\ne\n", "é\n\nf".as_bytes()];
+        let mut ncli = 0u64;
+        let mut cli_missing = false;
+        for mask in 1u32..32 {
+            let chosen: Vec<usize> = (0..5).filter(|i| mask & (1 << i) != 0).collect();
+            for rev in [false, true] {
+                let order: Vec<usize> = if rev { chosen.iter().rev().cloned().collect() } else { chosen.clone() };
+                let tmp = sut::TempFiles::new(&order.iter().map(|i| contents[*i]).collect::<Vec<_>>());
+                let mut args: Vec<&str> = vec!["-d", &defp];
+                for pth in &tmp.paths {
+                    args.push(pth);
+                }
+                args.extend(["--format", "json", "-c", "SELECT input FROM t"]);
+                let got = match sut::run_cli(&args) {
+                    Some(g) => g,
+                    None => {
+                        cli_missing = true;
+                        break;
+                    }
+                };
+                let mut exp: Vec<String> = Vec::new();
+                for i in &order {
+                    for l in ref_lines(contents[*i]) {
+                        let mut l = l.clone();
+                        if l.last() == Some(&0u8) {
+                            l.pop();
+                        }
+                        exp.push(String::from_utf8_lossy(&l).to_string());
+                    }
+                }
+                let out: Vec<String> = got.0.iter().filter(|l| !l.is_empty()).map(|l| serde_json::from_str::<J>(l).ok().and_then(|j| j["input"].as_str().map(|s| s.to_string())).unwrap_or_else(|| format!("<{}>", l))).collect();
+                ncli += 1;
+                col.eval(1);
+                if order.len() >= 2 {
+                    col.nontrivial(h64(&("cli", mask, rev)));
+                }
+                if out != exp || !got.2 {
+                    col.fail(fail(
+                        format!("lines:cli:{}", if out.len() != exp.len() { "line-count" } else { "order-or-content" }),
+                        format!("sqlgrep with input files {:?} (contents {:?}) printed {:?}, expected {:?}", order, order.iter().map(|i| String::from_utf8_lossy(contents[*i]).to_string()).collect::<Vec<_>>(), out, exp),
+                        json!({"layer": "cli", "mask": mask, "reversed": rev}),
+                        json!(exp),
+                        json!({"stdout": out, "stderr": got.1.lines().take(3).collect::<Vec<_>>()}),
+                        order.len() as u64,
+                    ));
+                }
+                // FROM t::'file' uses that file instead of the command line ones
+                if order.len() == 2 {
+                    let q = format!("SELECT input FROM t::'{}'", tmp.paths[1]);
+                    let a2: Vec<&str> = vec!["-d", &defp, &tmp.paths[0], "--format", "json", "-c", &q];
+                    if let Some(g2) = sut::run_cli(&a2) {
+                        let out2: Vec<String> = g2.0.iter().filter(|l| !l.is_empty()).map(|l| serde_json::from_str::<J>(l).ok().and_then(|j| j["input"].as_str().map(|s| s.to_string())).unwrap_or_default()).collect();
+                        let exp2: Vec<String> = ref_lines(contents[order[1]]).iter().map(|l| { let mut l = l.clone(); if l.last() == Some(&0u8) { l.pop(); } String::from_utf8_lossy(&l).to_string() }).collect();
+                        ncli += 1;
+                        col.eval(1);
+                        if out2 != exp2 {
+                            col.fail(fail("lines:cli:from-file".into(), format!("FROM t::'file' printed {:?}, expected the lines of that file {:?}", out2, exp2), json!({"layer": "cli", "mask": mask, "reversed": rev, "from_file": true}), json!(exp2), json!(out2), 2));
+                        }
+                    }
+                }
+            }
+            if cli_missing {
+                break;
+            }
+        }
+        std::fs::remove_file(&defp).ok();
+        if cli_missing {
+            col.note("CLI binary not built: CLI layer skipped".into());
+        } else {
+            col.layer("command line program: file subsets in both orders", ncli, true, json!({"files": 5}));
+        }
+    }
     finish(
         ctx,
         &col,
@@ -254,6 +331,10 @@ pub fn run(ctx: &Ctx) -> i32 {
 }
 
 pub fn replay(case: &J) -> Vec<Failure> {
+    if case["layer"].as_str() == Some("cli") {
+        println!("note: command-line cases are replayed by re-running `./check C12 quick` (file subset mask {}, reversed {})", case["mask"], case["reversed"]);
+        return vec![];
+    }
     let tables = sut::make_tables(DEF).unwrap();
     let content = unhex(case["content_hex"].as_str().unwrap());
     let cuts: Vec<usize> = case["cuts"].as_array().unwrap().iter().map(|x| x.as_u64().unwrap() as usize).collect();
